@@ -583,6 +583,9 @@ func genC18(out *Out, r *Rng, tier string, n int, shard int) {
 		}
 		// a JSON number is validated by its value, however it is written
 		emitNumberSpellings(out, r, root, g.draft)
+		for k := 0; k < 3; k++ {
+			emitPointerLikeNames(out, r, g.draft)
+		}
 		// annotation members are ignored: the verdicts must not change when $metadata is removed
 		noMeta := OObj{}
 		for _, kv := range root {
@@ -1003,4 +1006,83 @@ func init() { gens["C18"] = genC18 }
 
 func fmtSchema7(f string) string {
 	return `{"$schema":"http://json-schema.org/draft-07/schema#","properties":{"t":{"format":"` + f + `"}}}`
+}
+
+// member names are names, whatever they look like: names containing '/', '~', '#', '.', '$' - in particular names that spell the JSON
+// pointer (or the dotted path, or a pointer fragment) of ANOTHER member of the same document - are ordinary members; a conforming
+// document stays conforming when such names occur, and required / properties / additionalProperties / propertyNames go by the exact name.
+func emitPointerLikeNames(out *Out, r *Rng, draft string) {
+	base := r.Pick([]string{"a", "files", "http://schema.org", "x~y", "m", ""})
+	inner := r.Pick([]string{"b", "0", "name", "~1", "n", ""})
+	sep := r.Pick([]string{"/", "/", "~1", ".", "#/", "~0", "//"})
+	colliding := base + sep + inner
+	nested := any(OObj{{inner, RawNum("2")}})
+	if inner == "0" && r.Bool() {
+		nested = []any{OObj{{"size", RawNum("1")}}}
+	}
+	data := OObj{{base, nested}, {colliding, RawNum("1")}}
+	if r.Bool() {
+		data = OObj{{colliding, RawNum("1")}, {base, nested}}
+	}
+	if r.Chance(40) {
+		data = append(data, KV{"/" + base + "/" + inner, true}, KV{"#/" + base, nil})
+	}
+	if r.Chance(30) {
+		// the same name at another depth is another member
+		data = append(data, KV{"o", OObj{{base, RawNum("3")}, {"o", OObj{{base, RawNum("4")}}}}})
+	}
+	// member names of one object are distinct (a repeated name is another matter, not generated here)
+	seenName := map[string]bool{}
+	dd := OObj{}
+	for _, kv := range data {
+		if !seenName[kv.K] {
+			seenName[kv.K] = true
+			dd = append(dd, kv)
+		}
+	}
+	data = dd
+	if !seenName[base] || !seenName[colliding] || base == colliding {
+		return
+	}
+	root := OObj{}
+	switch draft {
+	case "07":
+		root = append(root, KV{"$schema", "http://json-schema.org/draft-07/schema#"})
+	case "2020":
+		root = append(root, KV{"$schema", "https://json-schema.org/draft/2020-12/schema"})
+	}
+	root = append(root, KV{"type", "object"})
+	conforming := true
+	switch r.Intn(6) {
+	case 0:
+		root = append(root, KV{"required", []any{colliding, base}})
+	case 1:
+		root = append(root, KV{"required", []any{base + "/" + inner + "x"}})
+		conforming = false
+	case 2:
+		root = append(root, KV{"properties", OObj{{colliding, OObj{{"type", "number"}}}}})
+	case 3:
+		root = append(root, KV{"properties", OObj{{colliding, OObj{{"type", "string"}}}}})
+		conforming = false
+	case 4:
+		props := OObj{}
+		for _, kv := range data {
+			props = append(props, KV{kv.K, true})
+		}
+		root = append(root, KV{"properties", props}, KV{"additionalProperties", false})
+	default:
+	}
+	sb, db := toJSONText(root), toJSONText(data)
+	verdict, verr := verdictOf(db, sb)
+	var why []string
+	if (verdict == "valid") != conforming {
+		why = append(why, fmt.Sprintf("member names that look like pointers: %s %s the schema %s but is reported %s (%v)", db,
+			map[bool]string{true: "conforms to", false: "does not conform to"}[conforming], sb, verdict, verr))
+	}
+	impl := J{"ok": verdict}
+	if verdict == "error" {
+		impl = J{"err": "err"}
+	}
+	out.Emit(Case{Op: "schema.validate", In: J{"schema": json.RawMessage(sb), "data": json.RawMessage(db)}, Impl: impl, Prop: propOf(why),
+		Tags: []string{"draft:" + draft, "verdict:" + verdict, "pointer-like-names", "sep:" + sep}, NT: true})
 }
